@@ -798,6 +798,15 @@ def stream_var(run, cases, outs):
     mism = [(c['env'], c['values'], v, it['code'], it['site']) for (c, v, it), m in zip(kept, masks) if m & 1]
     run.oblige('corr:var-direct(model resolve_var/solved_tokens vs the real resolve_var on tinycss2 tokens)', not mism,
                'first disagreements: %s' % json.dumps(mism[:3])[:3000])
+    # the model is hand-written (independent of coq/gen) and is the reading of css-variables-1 the C07_var_* theorems are
+    # about (substitution of the value or, when the property is undefined or cyclic, of the fallback; invalid at
+    # computed-value time otherwise), so a value on which the real resolve_var answers differently is a failing input
+    for (c, v, it), m in zip(kept, masks):
+        if m & 1:
+            fail(run, 'resolve_var answers (code %s) %s for `%s` with custom properties %s: not the substitution css-variables-1 '
+                      'prescribes (the model of props/C07.v answers otherwise)' % (it['code'], it['out'], v, c['env']),
+                 {'stream': 'var', 'case': {'env': c['env'], 'values': c['values']}, 'value': v, 'impl': [it['code'], it['out']]})
+            break
     keys = [(len(c['env']), v.count('var('), it['code'], len(it['out'])) for c, v, it in kept]
     run.count('var-direct', len(kept), [(json.dumps(c['env'], sort_keys=True), v) for c, v, _ in kept],
               samples=[{'env': kept[-1][0]['env'], 'values': kept[-1][0]['values']}])
